@@ -37,7 +37,7 @@ reg(Prop("C02", "rain and irrigation are fully partitioned at the surface",
     "ponding, bund-removal day, low-Ksat layers, back-up loop up to the surface; monitor: rows vs the weather record and the irrigation of the same step"))
 
 reg(Prop("C01", "daily soil-water balance closes",
-    [("drainage", 5000, 60000), ("infiltration", 5000, 60000), ("evap", 4000, 60000), ("gw", 5000, 60000), ("roots", 4000, 40000), ("transp", 4000, 60000), ("day", 3000, 40000), ("dayc", 2500, 30000)],
+    [("drainage", 5000, 60000), ("infiltration", 5000, 60000), ("evap", 4000, 60000), ("gw", 5000, 60000), ("roots", 4000, 40000), ("transp", 4000, 60000), ("day", 3000, 40000), ("dayc", 2500, 30000), ("runc", 48, 500)],
     trace_mon("C01", 70, 1200),
     [R_AX, WATER_NOTE],
     [EXACT, "profiles with th_dry < th_wp < th_fc < th_s strictly, tau > 0, Ksat > 0 (wf_prof); water contents within [th_dry, th_s] on entry (C03 invariant)"],
@@ -45,14 +45,14 @@ reg(Prop("C01", "daily soil-water balance closes",
     "(storage before/after each wrapped process vs the flux it returns) and day closure from the tables, 1e-6 mm (+ the capillary-rise allowance), carry-over between days and at season resets"))
 
 reg(Prop("C03", "soil water content and ponding stay within physical limits",
-    [("drainage", 5000, 60000), ("infiltration", 5000, 60000), ("evap", 4000, 60000), ("gw", 5000, 60000), ("roots", 4000, 40000), ("transp", 4000, 60000), ("rootzone", 3000, 30000), ("day", 2000, 30000), ("dayc", 2500, 30000)],
+    [("drainage", 5000, 60000), ("infiltration", 5000, 60000), ("evap", 4000, 60000), ("gw", 5000, 60000), ("roots", 4000, 40000), ("transp", 4000, 60000), ("rootzone", 3000, 30000), ("day", 2000, 30000), ("dayc", 2500, 30000), ("runc", 48, 500)],
     trace_mon("C03", 70, 1200, bunds=lambda r: r.random() < 0.3, gw=lambda r: r.random() < 0.35),
     [R_AX, WATER_NOTE],
     [EXACT, "wf_prof; capillary rise may overshoot adjusted field capacity by 5e-5 (round(.,4)), hence th_s by the same amount only when fcadj = th_s (capillary_in_bounds_refuted; the monitor measures whether real runs reach it)"],
     "as C01; monitor: min/max of every th column against the initialised profile, ponding vs bund height, Wr >= 0; saturated starts, 300 mm storms, droughts, tables inside the profile, Paddy"))
 
 reg(Prop("C04", "fluxes are non-negative and actual never exceeds potential",
-    [("rainirr", 6000, 80000), ("drainage", 4000, 50000), ("infiltration", 4000, 50000), ("evap", 5000, 80000), ("gw", 4000, 50000), ("transp", 5000, 80000), ("kernels", 3000, 30000), ("day", 2000, 30000), ("dayc", 2500, 30000)],
+    [("rainirr", 6000, 80000), ("drainage", 4000, 50000), ("infiltration", 4000, 50000), ("evap", 5000, 80000), ("gw", 4000, 50000), ("transp", 5000, 80000), ("kernels", 3000, 30000), ("day", 2000, 30000), ("dayc", 2500, 30000), ("runc", 48, 500)],
     trace_mon("C04", 70, 1200, crop=lambda r: r.choice([None, None, "DryBean", "Soybean", "SugarCane", "Cotton", "Quinoa"]) or r.choice(sim.CROPS)),
     [R_AX, WATER_NOTE],
     [EXACT, "parameter ranges of espot_ranges (0<=kex, 0<=fwcc<=100, 0<=CCxW<=1, mulch in range) and wf_prof"],
@@ -62,7 +62,7 @@ CROP_NOTE = ("modelled: canopy_cover.py, adjust_CCx.py, update_CCx_CDC.py (Crop/
              "biomass_accumulation.py, HIref_current_day.py, harvest_index.py, HIadj_*.py and the yield lines of run_single_timestep.py (Crop/Yield.v), kernels (Kernels.v)")
 
 reg(Prop("C05", "crop state stays inside its configured envelope",
-    [("canopy", 6000, 80000), ("roots", 6000, 80000), ("yield", 6000, 80000), ("kernels", 4000, 40000), ("dayc", 2500, 30000)],
+    [("canopy", 6000, 80000), ("roots", 6000, 80000), ("yield", 6000, 80000), ("kernels", 4000, 40000), ("dayc", 2500, 30000), ("runc", 48, 500)],
     trace_mon("C05", 70, 1200, strict=lambda r: r.random() < 0.6),
     [R_AX, CROP_NOTE],
     [EXACT, "crop_ok / rc_ok / hi_crop_ok parameter hypotheses (0 < CC0 <= CCx <= 1, CGC > 0, 0 < Zmin <= Zmax in whole centimetres, 0 < HIini < HI0, b_HI >= 1 ...), step_ok = CC0*exp(CGC*dt) <= CCx for one day's time increment; "
@@ -72,7 +72,7 @@ reg(Prop("C05", "crop state stays inside its configured envelope",
     "monitor: trajectories of get_crop_growth() against the season's crop parameters, restrictive-layer soils included"))
 
 reg(Prop("C06", "yields and seasonal totals agree with the daily tables",
-    [("yield", 8000, 80000), ("clock", 100, 1000), ("day", 3000, 40000), ("dayc", 2500, 30000)],
+    [("yield", 8000, 80000), ("clock", 100, 1000), ("day", 3000, 40000), ("dayc", 2500, 30000), ("runc", 48, 500)],
     trace_mon("C06", 70, 1200, method=lambda r: r.choice([0, 1, 2, 3, 4, 4, 5]), strict=lambda r: True),
     [R_AX, CROP_NOTE, "summary-row theorems on Clock.v are closed under the global context and hold for every physics; the plumbing of the row values is Day.v (L2 replay) when present"],
     [EXACT, "WPy <= 100, ET0 > 0, YldWC > 0 (catalogue_YldWC_refuted lists the 4 catalogue crops without YldWC)"],
